@@ -289,6 +289,26 @@ def check(src, rep):
                     bad += 1
                     break
         rep.count("text_codes", n_txt)
+        # ... and a register is stored by the int-or-float rule under every name of the table (no name gets a treatment of its own)
+        n_num = 0
+        for cdr_ in sorted(name_map):
+            if bad:
+                break
+            key = name_map[cdr_]
+            for content_, want_ in ((cases[0][2], Res("float", V)), (cases[1][2], U2)):
+                r = A.apply(fn, [body_of([AObj("Container", {"obis": code(cdr_), "content": content_})])])
+                n_num += 1
+                if r[0] in ("undecided", "branch"):
+                    rep.undecide(f"R3 aidon.{fn.name} on a register with C.D.E {cdr_}: {r[1]!r}"[:300])
+                    bad += 1
+                    break
+                if r[0] == "raise" or not isinstance(r[1], dict) or r[1].get(key) != want_:
+                    rep.violation("R3", f"aidon.{fn.name}", "int-or-float", f"the register {key!r} (C.D.E {cdr_}) is not stored as `unscaled integer if it equals the scaled value else float(scaled value)`: " +
+                                  (f"the normaliser raises {r[1]}" if r[0] == "raise" else f"stored {r[1].get(key) if isinstance(r[1], dict) else r[1]!r}"), file, fn.node.lineno,
+                                  witness=f"list with the single element {code(cdr_)} = {'scaled' if want_ is not U2 else 'unscaled'} register")
+                    bad += 1
+                    break
+        rep.count("register_codes", n_num)
     # no history: a second list of the same length with other codes, decoded by the same interpreter state, is keyed by its own codes
     if not bad and res[0] == "value":
         items2 = [AObj("Container", {"obis": c, "content": content}) for c, content in zip([code(known[2]), code(known[0]), "1.1.250.251.252.255", code(known[1]), "0.0.1.0.0.255"],
